@@ -23,6 +23,11 @@ NOT_SHOWN = {
          "sphere_interface_model); boxes enclosing the Dipole position",
          "Ampere's law with non-zero threading current (Circle, closed Polyline: linking-number form), curl H = 0 for closed polylines off the wire, and every integral statement for Cylinder, "
          "CylinderSegment, Tetrahedron, TriangularMesh, Circle, Polyline and collections: flux / circulation quadrature oracle only",
+         "Triangle / Tetrahedron / TriangularMesh rows have LOCAL theorems only (triangle_partials, triangle_div_free, triangle_curl_free, tetra_H_curl_free, tetra_B_div_free, "
+         "trimesh_row_div_free: explicit Jacobian of triangle_Bfield, trace 0, symmetric) and only at observers off the planes of the faces where the code does not clamp the solid angle "
+         "(|Omega| < 6.2831853 strictly) and strictly outside the on_edge tubes (rho2 > 1e-30 l2 alongside an edge); inside the clamp band (known finding triangle-split:clamp-band, "
+         "witness triangle_clamp_band_excluded) and across the tube boundary the model is discontinuous; the inside mask of a TriangularMesh row (ray casting) is a parameter "
+         "(trimesh_row_B_div_free takes it as locally constant); oracle: the proved Jacobian against 4th-order differences of the real triangle_Bfield (1e-6)",
          "the straight segment has only the pointwise div H = 0 of the UNMASKED kernel (segment_B_div_free is about q -> mu0 * segmentH q, not about the masked wrapper, which is not differentiable "
          "across the 1e-15 on-line mask); no box-flux theorem for it (continuity of its partial derivatives on a box not proved)",
          "the integral theorems are about the real-number model (exact Lebesgue integrals of the model functions at carrier R); the oracle's Gauss-Legendre sums of float64 values are compared with 0 "
